@@ -35,6 +35,15 @@
  *   iter / vsiter             Vgetid / VSgetid from -1 until FAIL                         -> ok r1 r2 ..
  *   find HEX / findclass HEX / vsfind HEX / vsfindclass HEX                               -> ok ref (0 = none)
  *   getvgroupsf start n / getvgroupsg G start n    Vgetvgroups (file id / vgroup id)      -> ok k r1 .. | fail
+ *   vsgetvdatasf start n / vsgetvdatasg G start n       VSgetvdatas (file id / vgroup id)   -> ok k r1 .. | fail
+ *   vsofclassf HEX start n / vsofclassg G HEX start n   VSofclass   (n = 0: NULL array, count only -> ok count)
+ *   countvgroupsf start / countvgroupsg G start         Vgetvgroups with a NULL array       -> ok count | fail
+ *   vhmakegroup HEXname HEXclass =k t r t r ..          VHmakegroup ("~" = NULL name/class) -> ok ref | fail
+ *   ventries ref              Ventries                                                    -> ok n | fail
+ *   querytag G                VQuerytag                                                   -> ok tag
+ *   gisinternal G             Vgisinternal                                                -> ok 0|1 | fail
+ *   flocate G HEXfield        Vflocate                                                    -> ok ref | fail
+ *   reopen v                  as reopen, through Vclose + Vopen
  *   getnext G id              Vgetnext                        (R-vs-M only)               -> ok id | fail
  *   msize G                   vg->nvelt, vg->msize            (R-vs-M only)               -> ok nvelt msize
  *   rawvg ref                 Hgetelement(DFTAG_VG, ref)      (R-vs-M only)               -> ok HEX | fail
@@ -120,7 +129,7 @@ int main(int argc, char **argv)
     return 0;
 }
 
-#define MAXTOK 12
+#define MAXTOK 1400
 static void run_history(const char *dir, char **lines, long *lnos, long nlines)
 {
     for (int i = 0; i < NG; i++) gk[i] = FAIL;
@@ -147,10 +156,18 @@ static void run_history(const char *dir, char **lines, long *lnos, long nlines)
             if (fid == FAIL || Vinitialize(fid) == FAIL) FAILED(); else OK();
         }
         else if (!strcmp(op, "reopen")) {
-            int r = Vfinish(fid);
-            if (Hclose(fid) == FAIL) r = FAIL;
-            fid = Hopen(fname, DFACC_RDWR, 0);
-            if (fid == FAIL || Vinitialize(fid) == FAIL) r = FAIL;
+            int r;
+            if (nt > 1 && tok[1][0] == 'v') {
+                r = Vclose(fid);
+                fid = Vopen(fname, DFACC_RDWR, 0);
+                if (fid == FAIL) r = FAIL;
+            }
+            else {
+                r = Vfinish(fid);
+                if (Hclose(fid) == FAIL) r = FAIL;
+                fid = Hopen(fname, DFACC_RDWR, 0);
+                if (fid == FAIL || Vinitialize(fid) == FAIL) r = FAIL;
+            }
             for (int i = 0; i < NG; i++) gk[i] = FAIL;
             for (int i = 0; i < NS; i++) sk[i] = FAIL;
             if (r == FAIL) FAILED(); else OK();
@@ -340,6 +357,66 @@ static void run_history(const char *dir, char **lines, long *lnos, long nlines)
                 printf("\n");
             }
             free(arr);
+        }
+        else if (!strcmp(op, "vsgetvdatasf") || !strcmp(op, "vsgetvdatasg") || !strcmp(op, "vsofclassf") || !strcmp(op, "vsofclassg")) {
+            int g = op[strlen(op) - 1] == 'g', cls = op[2] == 'o';
+            int ti = 1;
+            int32 id = fid;
+            if (g) { long hs = num(tok[ti++]); if (!GSLOT(hs)) { FAILED(); continue; } id = gk[hs]; }
+            const char *q = NULL;
+            if (cls) { unhex(tok[ti++], cbuf); q = (char *)cbuf; }
+            long start = num(tok[ti]), cnt = num(tok[ti + 1]);
+            if (start < 0 || cnt < 0) { FAILED(); continue; }
+            uint16 *arr = cnt ? malloc(cnt * sizeof(uint16)) : NULL;
+            int32 k = cls ? VSofclass(id, q, (unsigned)start, (unsigned)cnt, arr)
+                          : VSgetvdatas(id, (unsigned)start, (unsigned)cnt, arr);
+            if (k == FAIL) FAILED();
+            else {
+                printf("%ld ok %ld", ln, (long)k);
+                for (int i = 0; arr && i < k && i < cnt; i++) printf(" %u", (unsigned)arr[i]);
+                printf("\n");
+            }
+            free(arr);
+        }
+        else if (!strcmp(op, "countvgroupsf") || !strcmp(op, "countvgroupsg")) {
+            int g = op[12] == 'g';
+            long start = g ? b : a;
+            if ((g && !GSLOT(a)) || start < 0) { FAILED(); continue; }
+            int k = Vgetvgroups(g ? gk[a] : fid, (unsigned)start, 0, NULL);
+            if (k == FAIL) FAILED(); else printf("%ld ok %d\n", ln, k);
+        }
+        else if (!strcmp(op, "vhmakegroup")) {
+            const char *nm = NULL, *cl = NULL;
+            if (tok[1][0] != '~') { unhex(tok[1], nbuf); nm = (char *)nbuf; }
+            if (tok[2][0] != '~') { unhex(tok[2], cbuf); cl = (char *)cbuf; }
+            int np = (nt - 4) / 2;
+            if (np < 0) np = 0;
+            int32 *ta = malloc((np ? np : 1) * sizeof(int32)), *ra = malloc((np ? np : 1) * sizeof(int32));
+            for (int i = 0; i < np; i++) { ta[i] = (int32)num(tok[4 + 2 * i]); ra[i] = (int32)num(tok[5 + 2 * i]); }
+            int32 r = VHmakegroup(fid, ta, ra, np, nm, cl);
+            free(ta); free(ra);
+            setlabel(tok[3], r == FAIL ? 0 : r);
+            if (r == FAIL) FAILED(); else printf("%ld ok %ld\n", ln, (long)r);
+        }
+        else if (!strcmp(op, "ventries")) {
+            int32 r = Ventries(fid, (int32)a);
+            if (r == FAIL) FAILED(); else printf("%ld ok %ld\n", ln, (long)r);
+        }
+        else if (!strcmp(op, "querytag")) {
+            if (!GSLOT(a)) { FAILED(); continue; }
+            int32 r = VQuerytag(gk[a]);
+            if (r == FAIL) FAILED(); else printf("%ld ok %ld\n", ln, (long)r);
+        }
+        else if (!strcmp(op, "gisinternal")) {
+            if (!GSLOT(a)) { FAILED(); continue; }
+            int r = Vgisinternal(gk[a]);
+            if (r == FAIL) FAILED(); else printf("%ld ok %d\n", ln, r ? 1 : 0);
+        }
+        else if (!strcmp(op, "flocate")) {
+            if (!GSLOT(a)) { FAILED(); continue; }
+            unhex(tok[2], nbuf);
+            int32 r = Vflocate(gk[a], (char *)nbuf);
+            if (r == FAIL) FAILED(); else printf("%ld ok %ld\n", ln, (long)r);
         }
         else if (!strcmp(op, "getnext")) {
             if (!GSLOT(a)) { FAILED(); continue; }
